@@ -97,6 +97,24 @@ class AliasWorld(World):
         self.keep("event_handed_out", out.get("ret"))
         return out
 
+    def op_read_around(self, s):
+        """A windowed listing whose window contains the k-th event entirely (it ends 0..999 us after the event)."""
+        b = s["b"]
+        bk = self._bk(b)
+        if bk is None:
+            return {"skipped": "no bucket"}
+        evs = self.view[b]["events"]
+        if not evs:
+            return {"skipped": "empty"}
+        t = evs[s["k"] % len(evs)]
+        if t[2] < 0:
+            return {"skipped": "negative duration"}
+        st = us_to_dt(t[1] - 1_000_000)
+        en = us_to_dt(t[1] + t[2] + s["delta"], s.get("eoff", 0))
+        out = self._call(bk.get, limit=-1, starttime=st, endtime=en)
+        out["target"] = t
+        return out
+
     def op_mutate(self, s):
         """The client scribbles on an object it still holds.  No call into the store."""
         if not self.refs:
@@ -164,6 +182,18 @@ class Adversary(actors.Party):
         return {"op": "mutate", "h": r.randrange(0, 10_000), "how": r.randrange(0, 7), "val": r.choice(["X", 1, None, [1], {"y": 2}])}
 
 
+class AroundReader(actors.Party):
+    name = "around"
+
+    def __init__(self, r, cfg, b):
+        super().__init__(r, cfg)
+        self.b = b
+
+    def step(self):
+        r = self.r
+        return {"op": "read_around", "b": self.b, "k": r.randrange(0, 1000), "delta": r.choice([0, 1, 499, 999, 1000, 5000]), "eoff": gen.offset(r)}
+
+
 class Describer(actors.Party):
     name = "describer"
 
@@ -214,7 +244,7 @@ class C01(Check):
         "step the dump is compared with harness-held deep copies; non-trivial = at least one mutation of a held "
         "reference executed after a write; distinct = (backend, op-kind sequence)"
     )
-    expected_probes = ["mutate_event_passed_in", "mutate_event_handed_out", "mutate_metadata_passed_in", "mutate_metadata_handed_out", "restart_clean", "bulk_insert", "events_read_back", "offset_nonzero", "us_not_ms_aligned", "year_2100", "nested_data", "bulk_same_object_twice", "observation_deferred", "insert_through_stale_handle_checked"]
+    expected_probes = ["mutate_event_passed_in", "mutate_event_handed_out", "mutate_metadata_passed_in", "mutate_metadata_handed_out", "restart_clean", "bulk_insert", "events_read_back", "offset_nonzero", "us_not_ms_aligned", "year_2100", "nested_data", "bulk_same_object_twice", "observation_deferred", "insert_through_stale_handle_checked", "windowed_listing_around_event"]
     assumptions = ["restarts are clean (explicit flush before close): what survives an exit without shutdown is C06's subject"]
 
     def make_world(self, run, rundir):
@@ -235,6 +265,7 @@ class C01(Check):
             parties.append(actors.Importer(rs["imp%d" % k], cfg, b))
             parties.append(actors.Editor(rs["edit%d" % k], cfg, b))
             parties.append(actors.Reader(rs["read%d" % k], cfg, b))
+            parties.append(AroundReader(rs["around%d" % k], cfg, b))
         parties.append(Adversary(rs["adv"], cfg))
         parties.append(Rejecter(rs["rej"], cfg))
         defer = r.random() < 0.3
@@ -242,7 +273,7 @@ class C01(Check):
         # restarts in this check are clean ones: whether buffered writes survive an exit without shutdown is
         # C06's subject (a store whose reads do not flush would otherwise look like it corrupts events)
         parties.append(actors.Operator(rs["oper"], {"dirty_p": 0.0}))
-        weights = {"importer": 2.0, "editor": 0.7, "reader": 1.0, "adversary": 2.5, "describer": 0.6, "operator": 0.2, "rejecter": 0.15}
+        weights = {"importer": 2.0, "editor": 0.7, "reader": 1.0, "adversary": 2.5, "describer": 0.6, "operator": 0.2, "rejecter": 0.15, "around": 0.6}
         if defer:
             weights.update(importer=3.0, rejecter=0.8, reader=0.5)
         nsteps = r.choice([3, 6, 10, 20, 40] + ([80, 160] if tier == "thorough" else []))
@@ -412,6 +443,15 @@ class C01(Check):
                 if ret is None or obs_event(ret) != (tid,) + mb[tid]:
                     g = ret and obs_event(ret)[1:]
                     raise Violation(self._field_tag(mb[tid], g) if g else "fidelity_data", "lookup by id %r gives %s, expected %s" % (tid, short(g, 260), short(mb[tid], 260)), {"op": op})
+        elif op == "read_around":
+            # the listing is windowed, but the window contains the whole event: instant and duration are exact
+            t = out["target"]
+            pr["windowed_listing_around_event"] += 1
+            hit = [obs_event(e) for e in out["ret"] if e.id == t[0]]
+            if not hit:
+                raise Violation("fidelity_data", "a listing over a window that contains event %s entirely does not return it" % short(t, 200), {"op": op})
+            if hit[0] != t:
+                raise Violation(self._field_tag(t[1:], hit[0][1:]), "a listing over a window that contains the event entirely (it ends %d us after the event) returns %s for stored %s" % (step["delta"], short(hit[0], 200), short(t, 200)), {"op": op})
         elif op == "read" and step.get("limit", -1) < 0:
             got = sorted((obs_event(e) for e in out["ret"]), key=sort_key_id)
             want = sorted(((i,) + c for i, c in self.model[b].items()), key=sort_key_id)
